@@ -7,7 +7,7 @@ Data == JsonDeserialize(IOEnv.DEPS_DATA)
 Tab  == Data.tab
 INSTANCE KDeps WITH Num10 <- Tab.num10, Num16 <- Tab.num16, NumC <- Tab.numc,
                     DecStr <- Tab.decstr, HexStr <- Tab.hexstr, StrRank <- Tab.rank,
-                    NumF <- Tab.numf, NormF <- Tab.normf, FCanon <- Tab.fcanon
+                    NumF <- Tab.numf, NormF <- Tab.normf, FCanon <- Tab.fcanon, HexPfx <- Tab.hexpfx
 
 Progs == Data.progs
 VARIABLES t, done
